@@ -3,6 +3,7 @@ package main
 import (
 	"errors"
 
+	"github.com/antonmedv/expr"
 	"github.com/antonmedv/expr/file"
 	"fmt"
 	"strconv"
@@ -90,7 +91,7 @@ type World struct {
 	seq int
 }
 
-var pureFns = map[string]bool{"CL": true, "Tup": true, "PtrM": true, "Ff": true, "CI": true, "CS": true, "CB": true, "C64": true, "OpA": true, "OpB": true}
+var pureFns = map[string]bool{"Nest": true, "CL": true, "Tup": true, "PtrM": true, "Ff": true, "CI": true, "CS": true, "CB": true, "C64": true, "OpA": true, "OpB": true}
 
 func NewWorld(stateful bool, faults []CallFault, poison []PoisonFault) *World {
 	return &World{Stateful: stateful, Phase: "run", faults: faults, poison: poison}
@@ -250,10 +251,17 @@ type Env struct {
 	Ss         []string
 	Mp         map[string]int
 	O          *Obj
-	On         *Obj // usually nil
+	// O2 is deep-equal to O. Whether it is the SAME pointer as O or a distinct
+	// equal object is not part of the environment's value (two deep-equal
+	// environments may differ in that); see AliasO2.
+	O2 *Obj
+	On *Obj // usually nil
 	Any        interface{}
 	Fn         func(int) int
 	Objs       []*Obj
+	// Ob2 holds a value of ANOTHER struct type that also prints as "main.Obj"
+	// (declared inside a function), with the same field names in another order.
+	Ob2 interface{}
 	// Pm: a pointer to a map.
 	Pm *map[string]int
 	// Lvl (float64) is declared BEFORE the embedded struct whose Lvl (int) it shadows.
@@ -347,6 +355,21 @@ func (e Env) Va(xs ...interface{}) interface{} {
 	return small(sum*3) + e.w.salt(idx)
 }
 
+// AliasO2 makes BuildEnv alias O2 to O instead of building an equal copy. It is
+// flipped by vmsim around the re-run of an op: both environments are deep-equal.
+var AliasO2 bool
+
+// localObj returns a value of a function-local struct type named Obj: its type
+// prints exactly like the package-level Obj, its fields come in another order.
+func localObj(v int, name string) interface{} {
+	type Obj struct {
+		Name string
+		Pad  int
+		V    int
+	}
+	return Obj{Name: name, Pad: -1, V: v}
+}
+
 // Emb is embedded in Env; its Lvl field is shadowed by Env.Lvl.
 type Emb struct {
 	Lvl  int
@@ -368,6 +391,20 @@ func (e Env) Tup(xs ...interface{}) interface{} {
 	_, _ = e.w.enter("Tup", xs...)
 	defer e.w.leave("Tup")
 	return xs
+}
+
+// Nest re-enters the library: it evaluates a small program on a fresh VM while
+// the caller's run is in progress, and returns its result.
+func (e Env) Nest(i int) int {
+	_, _ = e.w.enter("Nest", i)
+	defer e.w.leave("Nest")
+	// (scalar work only: the nested run shares the process-wide memory budget and
+	// must not be refused by a tiny one)
+	out, err := expr.Eval("(a + b) * 2 - (a > b ? a * 3 : b - a) + (a == b ? 1 : 0)", map[string]interface{}{"a": i, "b": 1})
+	if err != nil {
+		panic(err)
+	}
+	return out.(int)
 }
 
 // PtrM has a pointer receiver: it exists for *Env (and the map), not for Env.
@@ -528,6 +565,11 @@ func BuildEnv(w *World, d *EnvData) *Env {
 	if d.Ss != nil {
 		e.Ss = append([]string{}, d.Ss...)
 	}
+	e.O2 = buildObj(w, d.O) // a distinct, equal object
+	if AliasO2 {
+		e.O2 = e.O
+	}
+	e.Ob2 = localObj(d.B, "ob2")
 	pm := map[string]int{"k1": d.A, "zz": 1}
 	e.Pm = &pm
 	e.Lvl = float64(d.D%3) + 0.5
@@ -575,7 +617,7 @@ func (e *Env) AsRep(rep string) interface{} {
 			"P": e.P, "Q": e.Q, "S": e.S, "T": e.T, "Re": e.Re,
 			"Xs": e.Xs, "Ys": e.Ys, "Ss": e.Ss, "Mp": e.Mp, "O": e.O, "On": e.On, "Any": e.Any,
 			"Fn": e.Fn, "Objs": e.Objs,
-			"Pm": e.Pm, "Lvl": e.Lvl, "EmbV": e.EmbV, "Info": e.Info, "Index": e.Index, "info": e.Info, "index": e.Index, "CL": e.CL, "Tup": e.Tup, "PtrM": e.PtrM,
+			"O2": e.O2, "Ob2": e.Ob2, "Nest": e.Nest, "Pm": e.Pm, "Lvl": e.Lvl, "EmbV": e.EmbV, "Info": e.Info, "Index": e.Index, "info": e.Info, "index": e.Index, "CL": e.CL, "Tup": e.Tup, "PtrM": e.PtrM,
 			"U8": e.U8, "U16": e.U16, "I8": e.I8, "I64": e.I64, "F64": e.F64, "F32": e.F32, "Ff": e.Ff,
 			"F1": e.F1, "F2": e.F2, "G0": e.G0, "P1": e.P1, "S1": e.S1, "Mk": e.Mk, "Va": e.Va,
 			"An": e.An, "OpA": e.OpA, "OpB": e.OpB, "C64": e.C64, "CI": e.CI, "CS": e.CS, "CB": e.CB,
